@@ -18,7 +18,7 @@ import ast
 
 from .index import ClassInfo, FuncInfo, Module
 
-MAXLEN = 4
+MAXLEN = 6
 FRESH = "<fresh>"
 UNKNOWN = "<unknown>"
 
@@ -59,6 +59,10 @@ LAZY_GETTERS = {
     "trimesh.scene.scene:Scene.camera": "creates a default camera (and its graph node) when none was set",
     "trimesh.scene.scene:Scene.lights": "creates default lights when none were set",
     "trimesh.parent:Geometry.source": "creates an empty LoadSource when the loader did not attach one",
+    "trimesh.path.entities:Entity.metadata": "creates the entity's metadata dict on first access",
+    "trimesh.path.entities:Entity.layer": "reads through the lazily created metadata dict",
+    "trimesh.scene.cameras:Camera.fov": "derives and remembers fov from focal length on first access",
+    "trimesh.scene.cameras:Camera.focal": "derives and remembers focal length from fov on first access",
 }
 
 # receiver typing by attribute / parameter name (the repository's naming conventions; frozen, printed in evidence)
@@ -91,10 +95,10 @@ class Ref:
     comprehension); mutating the container is not a write to the element, taking an element gives the storage back"""
     __slots__ = ("root", "path", "held")
 
-    def __init__(self, root, path=(), held=False):
+    def __init__(self, root, path=(), held=0):
         self.root = root
         self.path = tuple(path)[:MAXLEN]
-        self.held = held
+        self.held = int(held)  # nesting depth inside containers built in this function (0: the storage itself)
 
     def __hash__(self):
         return hash((self.root, self.path, self.held))
@@ -106,9 +110,12 @@ class Ref:
         return Ref(self.root, self.path + (step,))
 
     def hold(self):
-        return self if (self.held or self.root == FRESH) else Ref(self.root, self.path, True)
+        return self if self.root == FRESH else Ref(self.root, self.path, min(self.held + 1, 4))
 
     def unhold(self):
+        return Ref(self.root, self.path, self.held - 1) if self.held else self
+
+    def bare(self):
         return Ref(self.root, self.path) if self.held else self
 
     @property
@@ -367,8 +374,6 @@ class _Analyzer:
             elif kind == "for":
                 refs, types = self.expr_t(st.iter)
                 self.read(refs)
-                elem = {r if r.fresh else r.ext("[*]") for r in refs}
-                # element aliases are recorded in the base environment by phase one; nothing to store here
             elif kind == "with":
                 for item in st.items:
                     self.use(self.expr(item.context_expr))
@@ -382,6 +387,25 @@ class _Analyzer:
     flow_sensitive = True
 
     # ------------------------------------------------------------------ recording
+    def _immutable_global(self, root):
+        """module constants bound to numbers / strings / tuples of those cannot be written through"""
+        dotted = root[len("GLOBAL:"):]
+        mod, _, name = dotted.rpartition(".")
+        m = self.ix.modules.get(mod)
+        if m is None or name not in m.constants:
+            return False
+        for st in m.constants[name]:
+            v = getattr(st, "value", None)
+            if isinstance(v, ast.Constant):
+                continue
+            if isinstance(v, ast.Tuple) and all(isinstance(x, ast.Constant) for x in v.elts):
+                continue
+            if isinstance(v, (ast.BinOp, ast.UnaryOp)) and all(isinstance(x, (ast.Constant, ast.BinOp, ast.UnaryOp, ast.operator, ast.unaryop))
+                                                              for x in ast.walk(v)):
+                continue
+            return False
+        return True
+
     def canon(self, r):
         """a path that entered through an untyped alias (`np.asanyarray(mesh).vertices`) is re-resolved against the
         known classes of its root: a property step is replaced by what the getter returns"""
@@ -402,12 +426,14 @@ class _Analyzer:
         for r0 in refs:
             if r0.root in (FRESH, UNKNOWN):
                 continue
-            for r in self.canon(r0.unhold()):
+            for r in self.canon(r0.bare()):
                 self.s.reads.add((r.root, self.eng.normalise(r.path), tag))
 
     def write(self, refs, kind, node):
         for r0 in refs:
             if r0.root in (FRESH,) or r0.held:
+                continue
+            if r0.root.startswith("GLOBAL:") and self._immutable_global(r0.root):
                 continue
             r = self.canon(r0)[0]
             path = self.eng.normalise(r.path)
@@ -476,10 +502,7 @@ class _Analyzer:
         if isinstance(st, (ast.For, ast.AsyncFor)):
             refs, types = self.expr_t(st.iter)
             self.read(refs)
-            elem = set()
-            for r in refs:
-                elem.add(r if r.fresh else (r.unhold() if r.held else r.ext("[*]")))
-            self.assign(st.target, elem, self._elem_types(st.iter, types), st, loopvar=True)
+            self.bind_loop(st.target, st.iter, refs, types, st)
             for b in st.body + st.orelse:
                 self.stmt(b)
             return
@@ -518,9 +541,39 @@ class _Analyzer:
         # `for e in self.entities` / `.values()` of geometry
         txt = ast.unparse(iter_expr)
         for k, names in ELEMENT_ROLE.items():
-            if txt.endswith("." + k) or txt.endswith(f".{k}.values()") or txt.endswith(f".{k})"):
+            if txt.endswith("." + k) or txt.endswith(f".{k}.values()") or txt.endswith(f".{k})") or txt.endswith(f".{k}.items()") \
+                    or txt in (k, f"{k}.values()", f"{k}.items()"):
                 return set(self.eng.classes(names))
         return set()
+
+    def bind_loop(self, target, it, refs, types, node):
+        """loop / comprehension target binding: dict keys, enumerate counters are fresh; zip() pairs up its arguments"""
+        def elems(rs):
+            return {r if r.fresh else (r.unhold() if r.held else r.ext("[*]")) for r in rs}
+
+        if isinstance(target, (ast.Tuple, ast.List)) and isinstance(it, ast.Call):
+            fn = it.func.attr if isinstance(it.func, ast.Attribute) else getattr(it.func, "id", "")
+            if fn == "items" and len(target.elts) == 2 and isinstance(it.func, ast.Attribute):
+                self.assign(target.elts[0], {Ref(FRESH)}, set(), node, loopvar=True)
+                self.assign(target.elts[1], elems(refs), self._elem_types(it, types), node, loopvar=True)
+                return
+            if fn == "enumerate" and len(target.elts) == 2 and it.args:
+                r0, t0 = self.expr_t(it.args[0])
+                self.assign(target.elts[0], {Ref(FRESH)}, set(), node, loopvar=True)
+                self.bind_loop(target.elts[1], it.args[0], r0, t0, node)
+                return
+            if fn == "zip" and len(target.elts) == len(it.args):
+                for t, a in zip(target.elts, it.args):
+                    ra, ta = self.expr_t(a)
+                    self.bind_loop(t, a, ra, ta, node)
+                return
+        if isinstance(it, ast.Call) and isinstance(it.func, ast.Attribute) and it.func.attr == "keys":
+            self.assign(target, {Ref(FRESH)}, set(), node, loopvar=True)
+            return
+        if isinstance(it, ast.Call) and getattr(it.func, "id", "") == "range":
+            self.assign(target, {Ref(FRESH)}, set(), node, loopvar=True)
+            return
+        self.assign(target, elems(refs), self._elem_types(it, types), node, loopvar=True)
 
     def assign(self, target, refs, types, node, loopvar=False):
         if isinstance(target, ast.Name):
@@ -559,7 +612,7 @@ class _Analyzer:
             if aug:
                 self.read([r.ext(target.attr) for r in base])
             if not handled:
-                self.write([r.ext(target.attr) for r in base], "inplace" if aug else "rebind", node)
+                self.write([r.ext(target.attr) for r in base if not r.held], "inplace" if aug else "rebind", node)
             return
         if isinstance(target, ast.Subscript):
             base, btypes = self.expr_t(target.value)
@@ -568,8 +621,8 @@ class _Analyzer:
             last = lambda r: (self.eng.normalise(r.path)[-1] if r.path else None)  # noqa
             out = []
             for r in base:
-                if r.root == FRESH:
-                    continue
+                if r.root == FRESH or r.held:
+                    continue  # a store into the container itself, not into something it merely holds
                 lp = last(r)
                 if (key is not None and isinstance(target.slice.value, str)) or lp in DICT_STEPS:
                     self.write([r.ext(key or "[*]")], "inplace" if aug else "rebind", node)
@@ -641,8 +694,7 @@ class _Analyzer:
             for g in e.generators:
                 refs, types = self.expr_t(g.iter)
                 self.read(refs)
-                elem = {r if r.fresh else (r.unhold() if r.held else r.ext("[*]")) for r in refs}
-                self.assign(g.target, elem, self._elem_types(g.iter, types), e, loopvar=True)
+                self.bind_loop(g.target, g.iter, refs, types, e)
                 for c in g.ifs:
                     self.use(self.expr(c))
             out = {Ref(FRESH)}
